@@ -66,6 +66,7 @@ add_hybrid = op('add_hybrid', pe=st.integers(1, 4), mbr_id=st.one_of(NONE, st.in
                 pt=st.one_of(NONE, st.sampled_from([0, 0x17, 0x83, 0xef])), mac=st.sampled_from([False, False, True]),
                 efi=st.sampled_from([None, None, True, False]))
 rm_hybrid = op('rm_hybrid')
+rm_catlink = op('rm_catlink', j=I)
 bad = op('bad', w=st.integers(0, 200), wx=st.one_of(NONE, NONE, NONE, NONE, st.integers(0, 100)), wy=st.one_of(NONE, NONE, NONE, st.integers(0, 100)), i=I, to=I, len=st.sampled_from([0, 5, 2048, 70]), bit=st.booleans(), sz=SZ,
          rsz=st.sampled_from([0, 1, 2, 3, 3, 4, 5, 6]), usz=st.integers(0, 2), lead=I, salt=I)
 
@@ -155,7 +156,7 @@ def boot(cfg=None, reopen_ok=False, hybrid=True):
                                add_dir(d=st.just(0))), min_size=1, max_size=5)
     boots = st.lists(st.one_of(add_boot, add_boot, add_boot, link_cat), min_size=1, max_size=4)
     many = st.lists(add_boot, min_size=0, max_size=34).filter(lambda l: True)
-    body_choices = [add_fp(length=SMALL_LEN), rm_file, rm_link, rm_link, add_link, hide, query, write, force, add_boot, rm_boot, link_cat, dup_pvd, add_dir()]
+    body_choices = [add_fp(length=SMALL_LEN), rm_file, rm_link, rm_link, add_link, hide, query, write, force, add_boot, rm_boot, link_cat, dup_pvd, add_dir(), rm_catlink]
     if hybrid:
         body_choices += [add_hybrid, add_hybrid, rm_hybrid]
     if reopen_ok:
@@ -378,7 +379,7 @@ def bootlinks(cfg=None, reopen_ok=True):
     if reopen_ok:
         mid_choices += [st.just([{'k': 'reopen'}]), st.just([{'k': 'reopen'}])]
     body_choices = [rm_link.map(on0), rm_link.map(on0), add_link.map(on0), add_fp(length=SMALL_LEN), rm_file, rm_boot, add_boot.map(on0), query, write, force, add_dir(d=st.just(0)),
-                    link_cat]
+                    link_cat, rm_catlink, rm_catlink]
     if reopen_ok:
         body_choices += [reopen]
     body = st.lists(st.one_of(*body_choices), min_size=2, max_size=12)
